@@ -160,12 +160,12 @@ static lltd_iface_state *find_state(void *ctx) {
 /* Inv on the post-state: list well-formed, count exact, keys unique, icon cache consistent.
  * KP = bound on the list length to walk (K + 1 new observation). */
 static void assert_inv(lltd_iface_state *st, unsigned kp) {
-    V_ASSERT(st != 0, "Inv: interface record exists");
-    V_ASSERT(st->mapper_known <= 1, "Inv: mapper_known is a flag");
+    V_ASSERT(st != 0, "C01: Inv: interface record exists");
+    V_ASSERT(st->mapper_known <= 1, "C05: Inv: mapper_known is a flag");
     unsigned n = 0; probe_t *p = st->see_list;
     for (unsigned i = 0; i <= kp; i++) { if (p) { n++; p = (probe_t *)p->nextProbe; } }
-    V_ASSERT(p == 0, "Inv: observation list is finite and within its bound");
-    V_ASSERT(n == st->see_list_count, "Inv: observation count equals list length");
+    V_ASSERT(p == 0, "C01,C07,C19: Inv: observation list is finite and within its bound");
+    V_ASSERT(n == st->see_list_count, "C02,C07,C09,C10,C19: Inv: observation count equals list length");
     /* unique keys: all pairs */
     probe_t *a = st->see_list;
     for (unsigned i = 0; i <= kp; i++) {
@@ -173,17 +173,17 @@ static void assert_inv(lltd_iface_state *st, unsigned kp) {
             probe_t *b = (probe_t *)a->nextProbe;
             for (unsigned j = i + 1; j <= kp; j++) {
                 if (b) {
-                    V_ASSERT(!(mac6_eq(a->sourceAddr.a, b->sourceAddr.a) && mac6_eq(a->realSourceAddr.a, b->realSourceAddr.a)), "Inv: no observation recorded twice");
+                    V_ASSERT(!(mac6_eq(a->sourceAddr.a, b->sourceAddr.a) && mac6_eq(a->realSourceAddr.a, b->realSourceAddr.a)), "C07,C10: Inv: no observation recorded twice");
                     b = (probe_t *)b->nextProbe;
                 }
             }
-            V_ASSERT(a->type == lltd_htons(0) || a->type == lltd_htons(1), "Inv: observation type is Probe or Train");
+            V_ASSERT(a->type == lltd_htons(0) || a->type == lltd_htons(1), "C02,C07: Inv: observation type is Probe or Train");
             a = (probe_t *)a->nextProbe;
         }
     }
-    V_ASSERT((st->small_icon == 0) ? (st->small_icon_size == 0) : 1, "Inv: no icon size without icon");
+    V_ASSERT((st->small_icon == 0) ? (st->small_icon_size == 0) : 1, "C08,C09,C19: Inv: no icon size without icon");
 #ifdef VERIF_CBMC
-    if (st->small_icon) V_ASSERT(__CPROVER_r_ok(st->small_icon, st->small_icon_size), "Inv: cached icon holds its recorded size");
+    if (st->small_icon) V_ASSERT(__CPROVER_r_ok(st->small_icon, st->small_icon_size), "C01,C08: Inv: cached icon holds its recorded size");
 #endif
 }
 
@@ -227,17 +227,17 @@ static bool snap_has_key(const struct snap *sn, const uint8_t *es, const uint8_t
 }
 /* Inv on a snapshot */
 static void assert_inv_snap(lltd_iface_state *st, const struct snap *sn) {
-    V_ASSERT(st->mapper_known <= 1, "Inv: mapper_known is a flag");
-    V_ASSERT(!sn->overflow, "Inv: observation list is finite and within its bound");
-    V_ASSERT(sn->n == st->see_list_count, "Inv: observation count equals list length");
+    V_ASSERT(st->mapper_known <= 1, "C05: Inv: mapper_known is a flag");
+    V_ASSERT(!sn->overflow, "C01,C07,C19: Inv: observation list is finite and within its bound");
+    V_ASSERT(sn->n == st->see_list_count, "C02,C07,C09,C10,C19: Inv: observation count equals list length");
     for (unsigned a = 0; a < KP; a++) {
-        if (a < sn->n) V_ASSERT(sn->rawtype[a] == lltd_htons(0) || sn->rawtype[a] == lltd_htons(1), "Inv: observation type is Probe or Train");
+        if (a < sn->n) V_ASSERT(sn->rawtype[a] == lltd_htons(0) || sn->rawtype[a] == lltd_htons(1), "C02,C07: Inv: observation type is Probe or Train");
         for (unsigned b = a + 1; b < KP; b++)
-            if (b < sn->n) V_ASSERT(!node_key_eq(&sn->node[a], &sn->node[b]), "Inv: no observation recorded twice");
+            if (b < sn->n) V_ASSERT(!node_key_eq(&sn->node[a], &sn->node[b]), "C07,C10: Inv: no observation recorded twice");
     }
-    V_ASSERT((st->small_icon == 0) ? (st->small_icon_size == 0) : 1, "Inv: no icon size without icon");
+    V_ASSERT((st->small_icon == 0) ? (st->small_icon_size == 0) : 1, "C08,C09,C19: Inv: no icon size without icon");
 #ifdef VERIF_CBMC
-    if (st->small_icon) V_ASSERT(__CPROVER_r_ok(st->small_icon, st->small_icon_size), "Inv: cached icon holds its recorded size");
+    if (st->small_icon) V_ASSERT(__CPROVER_r_ok(st->small_icon, st->small_icon_size), "C01,C08: Inv: cached icon holds its recorded size");
 #endif
 }
 
